@@ -111,7 +111,7 @@ def run(item):
     if not mut and time_dependent(spec) and cfg.degree >= 2:
         ch2 = Checker(inst, timeout_ms=10000)
         refm = multi(inst, lambda tr: ref.dyn_atoms(tr, mut='root_time'))
-        _, un2, _ = ch2.match(refm, impl_atoms(inst))
+        _, un2, _ = ch2.match(refm, impl_atoms(inst), far=False)
         if un2:
             twins_ok += 1
         else:
